@@ -106,6 +106,10 @@ def oracle(sc, o):
                 pass  # a helper / rewind plan above died with it: _run hands it to the next plan down
             else:
                 bad.append((f"unexpected-throw:{cmd}:{val}", f"message {mid} ({cmd} {obj}) completed ({exp}) but its yield received throw {val}"))
+    # the engine's own `assert len(self._response_stack) == len(self._plan_stack)` is the stack invariant itself
+    for r, txt in zip(o["returns"], o.get("return_texts", [""] * len(o["returns"]))):
+        if r[1] in ("raise:AssertionError", "raise:IndexError"):
+            bad.append((f"stack-discipline-broken:{r[1][6:]}", f"{r[0]} ended with {r[1]} ({txt[:60]!r}): the response stack and the plan stack went out of step"))
     # RE(...) / resume() / abort() ... return the uids of the runs opened by this call, in order
     rv = o.get("return_values")
     if rv is not None:
@@ -124,8 +128,22 @@ def rich_plan(rng):
     b = []
     staged = [d for d in ("m1", "d1", "d2") if rng.random() < 0.35]
     b += [M("stage", d) for d in staged]
-    key = rng.choice([None, None, "a"])
+    nruns = rng.choice([1, 2, 2, 3])
+    for irun in range(nruns):
+        b += run_body(rng, rng.choice([None, None, "a"]), last=(irun == nruns - 1))
+    b += [M("unstage", d) for d in reversed(staged)]
+    if rng.random() < 0.25:
+        return {"k": "try", "body": seq(*b), "handler": seq(M("null")) if rng.random() < 0.5 else None, "fin": seq(M("null"))}
+    return seq(*b)
+
+
+def run_body(rng, key, last):
+    b = []
     b.append(M("open_run", run=key))
+    second = None
+    if rng.random() < 0.2:   # a second run with its own key open at the same time
+        second = "b"
+        b.append(M("open_run", run=second))
     if rng.random() < 0.2:
         b.append(M("monitor", "s1", run=key, name="s1_monitor"))
     for _ in range(rng.choice([1, 1, 2])):
@@ -161,12 +179,11 @@ def rich_plan(rng):
             b.append(M("bogus"))
         elif r < 0.25:
             b.append(M("wait", None, group="never"))
-    if rng.random() < 0.9:
+    if second is not None and rng.random() < 0.8:
+        b.append(M("close_run", run=second))
+    if (not last) or rng.random() < 0.9:
         b.append(M("close_run", run=key))
-    b += [M("unstage", d) for d in reversed(staged)]
-    if rng.random() < 0.25:
-        return {"k": "try", "body": seq(*b), "handler": seq(M("null")) if rng.random() < 0.5 else None, "fin": seq(M("null"))}
-    return seq(*b)
+    return b
 
 
 def rich_devices(rng):
